@@ -291,7 +291,8 @@ class MonteCarloNoise:
             op = copy.deepcopy(op)
             is_controlled = False
             if isinstance(op, ops.OneQubitGateWrapper):
-                op_type_seq = [type(gate) for gate in op.unwrap()]
+                # noise[i] belongs to operations[i] (listed order), which is how unwrap() attaches it
+                op_type_seq = op.operations
                 noise_list = self._find_wrapped_noise(op_type_seq, op.reg_type)
                 op.noise = noise_list
                 noisy_ops.append(op)
